@@ -1,6 +1,8 @@
 (** * C15 -- Global state persists exactly across invocation histories; VMs are isolated. *)
 From Coq Require Import String ZArith List Bool Arith.
-From NSL Require Import Model.PyNum Model.IR Model.VM Model.PyTree Harness.RunLib Proofs.HistoryProofs Proofs.CallProofs.
+From NSL Require Import Base.Types Base.Syntax Model.PyNum Model.IR Model.VM Model.PyTree Model.Elab Model.Lower Spec.RefSem Harness.RunLib Proofs.HistoryProofs Proofs.CallProofs
+     Proofs.OpsAgree Proofs.LowerExprProofs Proofs.ElabExprProofs Proofs.ReturnExprProofs Proofs.CallAgreeProofs Proofs.LowerStmtProofs Proofs.ElabStmtProofs
+     Proofs.StraightLineProofs Proofs.StraightLineExample Proofs.HistoryRefineProofs Proofs.HistoryExample.
 From NSLDyn Require Gen_VM Agree_VM Gen_Shapes.
 Import ListNotations.
 
@@ -31,6 +33,30 @@ Theorem C15_vm_isolation : forall P sts k st' j, j <> k ->
     vm_state P ((k, st') :: filter (fun p => negb (Nat.eqb (fst p) k)) sts) j = vm_state P sts j.
 Proof. exact other_vm_untouched. Qed.
 
+(** PARTIAL (history refinement for programs of straight-line functions).  [fn_ok M P fn]: fn is a straight-line function
+    (declarations and assignments of int / float variables, then a return, as in C01_straight_line_functions_partial) with
+    distinct parameter names, and P holds under its name the IR function the front-end and lowering models produce for it.
+    For every finite history of invocations of such functions with numeric arguments of the declared types, started from
+    globals on which reference state and VM agree: whenever the reference state machine of the source runs the history
+    to the results rs and the globals g', the VM model, for every sufficient fuel, runs the same history to exactly those
+    results and to a state whose globals agree with g' again -- so each invocation saw the globals its predecessors left,
+    started with fresh locals, and changed globals only through its assignments.  (SetGlobal / GetGlobal of the host are
+    the agreement relation [GA] itself.)  Missing for the full statement: functions with control flow, calls, aggregates. *)
+Theorem C15_history_refinement_partial : forall (M : module) (P : program) (calls : list hcall),
+  (forall c, In c calls -> fn_ok M P (fst c) /\ Forall2 (fun p w => has_ty w (fst p)) (f_args (fst c)) (snd c)) ->
+  forall fuel g vs rs g', GA M g vs -> ref_hist M fuel g calls = ROk (rs, g') ->
+  exists n, forall fuel', n <= fuel' ->
+    exists vl vs', vm_hist fuel' P vs calls = Some (vl, vs') /\ Forall2 (fun s v => exists w, s = SV w /\ v = v_of w) rs vl /\ GA M g' vs'.
+Proof. exact history_refines. Qed.
+
+(** non-vacuity: int g; f(int a, float b) -> float { int x = a + 2; float y; y = x * b; g = g + x; a = a - 1; return y + g / 1.5 - a; }
+    called three times from g = 8: the theorem applies, and evaluation gives g = 16 on both sides *)
+Example C15_history_example :
+  exists rs g', ref_hist sl_M 14 hx_g hx_calls = ROk (rs, g') /\
+  exists n, forall fuel', n <= fuel' ->
+    exists vl vs', vm_hist fuel' hx_P hx_vs hx_calls = Some (vl, vs') /\ Forall2 (fun s v => exists w, s = SV w /\ v = v_of w) rs vl /\ GA sl_M g' vs'.
+Proof. exact hx_history. Qed.
+
 (** the interpreter arms that write the VM's global table in nsl/VM.py on this run: STORE only *)
 Theorem C15_global_writers :
   filter (fun p => existsb (String.eqb "self.__globalScope") (snd p)) Gen_VM.vm_arm_writes = [("STORE"%string, ["args"; "localScope"; "self.__globalScope"]%string)].
@@ -38,4 +64,5 @@ Proof. rewrite Agree_VM.agree_vm_writes. reflexivity. Qed.
 
 Eval compute in "ASSUMPTIONS C15_vm_isolation"%string. Print Assumptions C15_vm_isolation.
 Eval compute in "ASSUMPTIONS C15_globals_only_by_stores"%string. Print Assumptions C15_globals_only_by_stores.
+Eval compute in "ASSUMPTIONS C15_history_refinement_partial"%string. Print Assumptions C15_history_refinement_partial.
 Eval compute in "END"%string.
